@@ -130,6 +130,13 @@ impl Shl<usize> for Address {
     }
 }
 
+#[cfg(kani)]
+impl kani::Arbitrary for Address {
+    fn any() -> Self {
+        Address(kani::any())
+    }
+}
+
 impl Address {
     /// The lowest possible address.
     pub const ZERO: Self = Address(0);
